@@ -64,7 +64,10 @@ def run(sid, check, tier='quick'):
         if a.returncode!=0: raise SystemExit('patch does not apply: '+a.stdout+a.stderr)
         ovl=os.path.join(d,'overlay.json'); json.dump({'Replace':repl}, open(ovl,'w'))
         outdir=os.path.join(d,'out'); os.makedirs(outdir); shutil.copy('/verif/known_findings.json', outdir)
-        p=subprocess.run(['/verif/vrun',check,tier], cwd='/verif', env=dict(ENV, VERIF_OUT=outdir, VERIF_OVERLAY=ovl), capture_output=True, text=True)
+        try:
+            p=subprocess.run(['/verif/vrun',check,tier], cwd='/verif', env=dict(ENV, VERIF_OUT=outdir, VERIF_OVERLAY=ovl), capture_output=True, text=True, timeout=3000)
+        except subprocess.TimeoutExpired:
+            subprocess.run(['pkill','-f',outdir]); print(f'{sid} {check} {tier}: TIMEOUT after 3000 s (the check does not end: not a detection)'); return False
         v=[l for l in p.stdout.split('\n') if l.startswith('VIOLATION')]
         print(f'{sid} {check} {tier}: exit={p.returncode} violations={len(v)}')
         for l in v[:3]: print('   ', l[:300])
